@@ -39,7 +39,15 @@
      NSetterKeepsC       free space: n setter does not recompute C
      FcSetterKeepsC      free space: fc setter does not recompute C
      ClampArrayOnly      negative loss clamped to 0 dB for arrays but returned as is for scalars
-     HataRejectAssigns   Okumura-Hata setters store the value before validating it           *)
+     HataRejectAssigns   Okumura-Hata setters store the value before validating it
+     ShadowAfterPolicy   the shadowing draw is added AFTER the small-distance handling (a returned loss can be < 0)
+
+   Shadowing (`use_shadow_bool`, `sigma_shadow`) is part of the state with its two setters.  While it is on with
+   sigma > 0 the exact-value queries are not enabled (the value is det + sigma z for an unknown draw z); the range
+   law is stated for every draw (ShadowRange) and `QRel` hands the harness the exact deterministic losses, so that
+   seeded draws close to the minimum distance can be judged: never negative, never an exception under the clamp
+   policy, within 7 sigma of the deterministic loss.  sigma = 0 with shadowing on is a falsy-but-valid value: all
+   exact queries stay enabled and must return the deterministic values.                                      *)
 EXTENDS Integers, Sequences, FiniteSets, TLC, Emit, PathLossParams
 
 CONSTANTS Model,     \* "general" | "3gpp1" | "freespace" | "metis" | "hata"
@@ -52,6 +60,9 @@ CONSTANTS Model,     \* "general" | "3gpp1" | "freespace" | "metis" | "hata"
           ArrSets,   \* sequence of [ks |-> Seq(Int), ws |-> Seq(Nat)] : array queries
           KMin, KMax,\* decades of distance
           Enc,       \* [x1, x2, kf |-> <<lo, hi>>] rational enclosures of X1, X2, log10(c/(4000 pi))
+          ShadowVals, \* subset of BOOLEAN : values of the use_shadow_bool setter
+          SigmaVals,  \* sequence of Rat >= 0   : values of the sigma_shadow setter (0 = shadowing without effect)
+          EmitSel,    \* 0: emit everything; 1 / 2: only from states with policy raise / clamp (parallel emission runs)
           Dev, DoEmit
 
 D(p, q) == RNorm(p, q)
@@ -94,21 +105,23 @@ LogFc5(f)  == IF f.m = 5 THEN FC(R(f.e - 3)) ELSE FAdd(FC(R(f.e - 3)), X1)
 NoFc       == [m |-> 1, e |-> 0]
 
 (* ----------------------------------------- state ------------------------------------------ *)
-VARIABLES ph, n, fc, C, hbs, hms, area, pol, out
-vars == <<ph, n, fc, C, hbs, hms, area, pol, out>>
+VARIABLES ph, n, fc, C, hbs, hms, area, pol, shadow, sigma, out
+vars == <<ph, n, fc, C, hbs, hms, area, pol, shadow, sigma, out>>
 P    == [ph |-> ph, n |-> n, fc |-> fc, fcv |-> FcVal(fc), C |-> C, hbs |-> hbs, hms |-> hms,
-         area |-> area, pol |-> pol]
+         area |-> area, pol |-> pol, shadow |-> shadow, sigma |-> sigma]
 PN   == [ph |-> ph', n |-> n', fc |-> fc', fcv |-> FcVal(fc'), C |-> C', hbs |-> hbs', hms |-> hms',
-         area |-> area', pol |-> pol']
-Params == <<n, fc, C, hbs, hms, area, pol>>
+         area |-> area', pol |-> pol', shadow |-> shadow', sigma |-> sigma']
+Params == <<n, fc, C, hbs, hms, area, pol, shadow, sigma>>
 
 Init == /\ ph = "new" /\ n = RZero /\ fc = NoFc /\ C = FZ /\ hbs = RZero /\ hms = RZero
-        /\ area = "" /\ pol = FALSE /\ out = "init"
+        /\ area = "" /\ pol = FALSE /\ shadow = FALSE /\ sigma = R(8) /\ out = "init"
 
 \* documented constant of the free-space class:  C = 10 n (log10(fc 1e6) - K0)
 CFrom(nn, f) == FScale(LMul(R(10), nn), FSub(FAdd(LogFc(f), FC(R(6))), X1))
 
 Live == ph = "live"
+\* with shadowing switched on (and sigma > 0) a returned loss is det + sigma z, z a standard normal draw
+Random == shadow /\ sigma # RZero
 f_ok(f) == f.m > 0 /\ FcOnLat(f)
 Exact == CASE Model = "freespace" -> f_ok(fc)
            [] Model = "metis"     -> FcOnLat(fc)
@@ -173,12 +186,17 @@ Inv(f) == LET q == FScale(LDiv(ROne, LMul(R(10), n)), FSub(f, C))
           IN  IF FIsRat(q) /\ IsInt(q[1]) THEN q[1][1] ELSE -999
 
 (* ----------------------------------------- actions ---------------------------------------- *)
-E(rec) == IF DoEmit THEN EmitEdge(rec) ELSE TRUE
-SetRec(op, arg, o) == [kind |-> "set", op |-> op, arg |-> arg, out |-> o, pre |-> P, post |-> PN]
+E(rec) == IF DoEmit /\ (EmitSel = 0 \/ (EmitSel = 1 /\ ~pol) \/ (EmitSel = 2 /\ pol)) THEN EmitEdge(rec) ELSE TRUE
+
+\* frame conditions every call is replayed under (notes/CALL_DISCIPLINE.md); listed in every emitted record
+FrameQ == {"ArgumentsUnchanged", "EarlierResultsUnchanged", "QueryIsPure", "AnyDtypeSameValue"}
+FrameS(o) == IF o = "raise" THEN {"RejectedChangesNothing"} ELSE {}
+SetRec(op, arg, o) == [kind |-> "set", op |-> op, arg |-> arg, out |-> o, pre |-> P, post |-> PN, frame |-> FrameS(o)]
 
 Construct(i) ==
   LET a == InitArgs[i] IN
   /\ ph = "new" /\ ph' = "live" /\ pol' = FALSE /\ out' = "ok"
+  /\ shadow' = FALSE /\ sigma' = R(8)                      \* use_shadow_bool = False, sigma_shadow = 8.0
   /\ CASE Model = "general"   -> n' = a.n /\ C' = FC(a.C) /\ UNCHANGED <<fc, hbs, hms, area>>
        [] Model = "3gpp1"     -> n' = D(376, 100) /\ C' = FC(D(1281, 10)) /\ UNCHANGED <<fc, hbs, hms, area>>
        [] Model = "freespace" -> n' = a.n /\ fc' = a.fc /\ C' = CFrom(a.n, a.fc) /\ UNCHANGED <<hbs, hms, area>>
@@ -189,8 +207,18 @@ Construct(i) ==
 
 SetPol(b) ==
   /\ Live /\ pol' = b /\ out' = "ok"
-  /\ UNCHANGED <<ph, n, fc, C, hbs, hms, area>>
+  /\ UNCHANGED <<shadow, sigma, ph, n, fc, C, hbs, hms, area>>
   /\ E(SetRec("SetPol", b, "ok"))
+
+\* use_shadow_bool / sigma_shadow: public attributes of every model (log-normal shadowing, sigma in dB)
+SetShadow(b) ==
+  /\ Live /\ b \in ShadowVals /\ shadow' = b /\ out' = "ok"
+  /\ UNCHANGED <<ph, n, fc, C, hbs, hms, area, pol, sigma>>
+  /\ E(SetRec("SetShadow", b, "ok"))
+SetSigma(i) ==
+  /\ Live /\ sigma' = SigmaVals[i] /\ out' = "ok"
+  /\ UNCHANGED <<ph, n, fc, C, hbs, hms, area, pol, shadow>>
+  /\ E(SetRec("SetSigma", SigmaVals[i], "ok"))
 
 SetN(i) ==
   LET v == NVals[i] IN
@@ -199,7 +227,7 @@ SetN(i) ==
        THEN /\ n' = v /\ out' = "ok"
             /\ C' = IF Dev.NSetterKeepsC THEN C ELSE CFrom(v, fc)
        ELSE /\ n' = v /\ out' = "raise" /\ C' = C           \* only reachable with FcRejectKeepsValue
-  /\ UNCHANGED <<ph, fc, hbs, hms, area, pol>>
+  /\ UNCHANGED <<shadow, sigma, ph, fc, hbs, hms, area, pol>>
   /\ E(SetRec("SetN", v, out'))
 
 SetFc(i) ==
@@ -210,7 +238,7 @@ SetFc(i) ==
   /\ fc' = IF acc \/ (Model = "freespace" /\ Dev.FcRejectKeepsValue) \/ (Model = "hata" /\ Dev.HataRejectAssigns)
              THEN v ELSE fc
   /\ C' = IF Model = "freespace" /\ acc /\ ~Dev.FcSetterKeepsC THEN CFrom(n, v) ELSE C
-  /\ UNCHANGED <<ph, n, hbs, hms, area, pol>>
+  /\ UNCHANGED <<shadow, sigma, ph, n, hbs, hms, area, pol>>
   /\ E(SetRec("SetFc", [m |-> v.m, e |-> v.e, v |-> FcVal(v)], out'))
 
 SetHbs(i) ==
@@ -218,7 +246,7 @@ SetHbs(i) ==
   /\ Live /\ "SetHbs" \in Offers(Model)
   /\ out' = IF acc THEN "ok" ELSE "raise"
   /\ hbs' = IF acc \/ Dev.HataRejectAssigns THEN v ELSE hbs
-  /\ UNCHANGED <<ph, n, fc, C, hms, area, pol>>
+  /\ UNCHANGED <<shadow, sigma, ph, n, fc, C, hms, area, pol>>
   /\ E(SetRec("SetHbs", v, out'))
 
 SetHms(i) ==
@@ -226,7 +254,7 @@ SetHms(i) ==
   /\ Live /\ "SetHms" \in Offers(Model)
   /\ out' = IF acc THEN "ok" ELSE "raise"
   /\ hms' = IF acc \/ Dev.HataRejectAssigns THEN v ELSE hms
-  /\ UNCHANGED <<ph, n, fc, C, hbs, area, pol>>
+  /\ UNCHANGED <<shadow, sigma, ph, n, fc, C, hbs, area, pol>>
   /\ E(SetRec("SetHms", v, out'))
 
 SetArea(i) ==
@@ -234,39 +262,40 @@ SetArea(i) ==
   /\ Live /\ "SetArea" \in Offers(Model)
   /\ out' = IF acc THEN "ok" ELSE "raise"
   /\ area' = IF acc \/ Dev.HataRejectAssigns THEN v ELSE area
-  /\ UNCHANGED <<ph, n, fc, C, hbs, hms, pol>>
+  /\ UNCHANGED <<shadow, sigma, ph, n, fc, C, hbs, hms, pol>>
   /\ E(SetRec("SetArea", v, out'))
 
 \* ---- queries: stuttering steps that emit the exact expected observable
-QRec(op, k, w, exp) == [kind |-> "q", op |-> op, k |-> k, w |-> w, exp |-> exp, pre |-> P, post |-> P]
+QRec(op, k, w, exp) == [kind |-> "q", op |-> op, k |-> k, w |-> w, exp |-> exp, pre |-> P, post |-> P, frame |-> FrameQ]
 WallsOf == IF Model = "metis" THEN WallVals ELSE {0}
 
 QPLdB(k, w) ==
-  /\ Live /\ Exact /\ UNCHANGED vars
+  /\ Live /\ Exact /\ ~Random /\ UNCHANGED vars
   /\ IF w < 0 THEN E(QRec("PLdB", k, w, [t |-> "raisevalue", f |-> FZ]))
      ELSE Decided(k, w) /\ E(QRec("PLdB", k, w, Outcome(k, w)))
 
 QPL(k, w) ==
-  /\ Live /\ Exact /\ w >= 0 /\ Decided(k, w) /\ UNCHANGED vars
+  /\ Live /\ Exact /\ ~Random /\ w >= 0 /\ Decided(k, w) /\ UNCHANGED vars
   /\ E(QRec("PL", k, w, [t |-> Outcome(k, w).t, f |-> Outcome(k, w).f, lin |-> LinOf(Outcome(k, w))]))
 
 QPLdBArr(i) ==
-  /\ Live /\ Exact /\ ArrDecided(ArrSets[i]) /\ UNCHANGED vars
+  /\ Live /\ Exact /\ ~Random /\ ArrDecided(ArrSets[i]) /\ UNCHANGED vars
   /\ E([kind |-> "q", op |-> "PLdBArr", ks |-> ArrSets[i].ks,
-        ws |-> IF Model = "metis" THEN ArrSets[i].ws ELSE <<>>, exp |-> ArrOutcome(ArrSets[i]), pre |-> P, post |-> P])
+        ws |-> IF Model = "metis" THEN ArrSets[i].ws ELSE <<>>, exp |-> ArrOutcome(ArrSets[i]), pre |-> P, post |-> P,
+        frame |-> FrameQ])
 
 QWhichDistDB(k) ==
-  /\ Live /\ Exact /\ UNCHANGED vars
+  /\ Live /\ Exact /\ ~Random /\ UNCHANGED vars
   /\ IF InvOffered THEN E(QRec("WhichDistDB", k, 0, [t |-> "dist", f |-> Det(k, 0), k |-> Inv(Det(k, 0))]))
                    ELSE k = KMin /\ E(QRec("WhichDistDB", k, 0, [t |-> "notoffered"]))
 
 QWhichDist(k) ==
-  /\ Live /\ Exact /\ InvOffered /\ Decided(k, 0) /\ Outcome(k, 0).t = "val" /\ FSign(Det(k, 0)) = 1
+  /\ Live /\ Exact /\ ~Random /\ InvOffered /\ Decided(k, 0) /\ Outcome(k, 0).t = "val" /\ FSign(Det(k, 0)) = 1
   /\ UNCHANGED vars
   /\ E(QRec("WhichDist", k, 0, [t |-> "dist", k |-> Inv(Det(k, 0))]))
 
 QFriis(k) ==
-  /\ Live /\ Exact /\ Model = "freespace" /\ n = R(2) /\ FSign(Det(k, 0)) = 1 /\ UNCHANGED vars
+  /\ Live /\ Exact /\ ~Random /\ Model = "freespace" /\ n = R(2) /\ FSign(Det(k, 0)) = 1 /\ UNCHANGED vars
   /\ E(QRec("Friis", k, 0, [t |-> "val", f |-> Det(k, 0), tol |-> D(1, 100)]))
 
 \* Okumura-Hata 'large city': a(hms) = 3.2 (log10(11.75 hms))^2 - 4.97 above 300 MHz, 8.29 (log10(1.54 hms))^2 - 1.10
@@ -284,14 +313,18 @@ LargeCity ==
 \* bit-identical afterwards, re-uses it for a second identical call and requires the same result.
 QRel ==
   /\ Live /\ UNCHANGED vars
-  /\ E([kind |-> "q", op |-> "Rel", pre |-> P, post |-> P, exact |-> Exact,
+  /\ E([kind |-> "q", op |-> "Rel", pre |-> P, post |-> P, exact |-> Exact, random |-> Random, frame |-> FrameQ,
+        dets |-> IF Exact THEN [w \in WallsOf \ {-1} |-> [k \in Ks |-> Det(k, w)]] ELSE <<>>, kmin |-> KMin,
         slope |-> [w \in WallsOf \ {-1} |-> Slope(w)],
         lc |-> LargeCity,
-        req |-> {"Monotone", "LinearIsDb", "InUnit", "PolicyArrayScalar", "QueryPure"}
-                  \cup (IF InvOffered THEN {"InverseId"} ELSE {})])
+        req |-> IF Random THEN {"InUnitEveryDraw", "PolicyEveryDraw", "NoiseBounded", "ShadowingIsOn"}
+                ELSE {"Monotone", "LinearIsDb", "InUnit", "PolicyArrayScalar", "QueryPure"}
+                       \cup (IF InvOffered THEN {"InverseId"} ELSE {})])
 
 Next == \/ \E i \in 1..Len(InitArgs) : Construct(i)
         \/ \E b \in BOOLEAN : SetPol(b)
+        \/ \E b \in BOOLEAN : SetShadow(b)
+        \/ \E i \in 1..Len(SigmaVals) : SetSigma(i)
         \/ \E i \in 1..Len(NVals) : SetN(i)
         \/ \E i \in 1..Len(FcVals) : SetFc(i)
         \/ \E i \in 1..Len(HbsVals) : SetHbs(i)
@@ -306,7 +339,7 @@ Next == \/ \E i \in 1..Len(InitArgs) : Construct(i)
         \/ QRel
 
 (* ---------------------------------------- the property ------------------------------------ *)
-TypeOK == /\ ph \in {"new", "live"} /\ pol \in BOOLEAN /\ out \in {"init", "ok", "raise"}
+TypeOK == /\ ph \in {"new", "live"} /\ pol \in BOOLEAN /\ shadow \in BOOLEAN /\ IsRat(sigma) /\ RSgn(sigma) >= 0 /\ out \in {"init", "ok", "raise"}
           /\ IsRat(n) /\ IsRat(hbs) /\ IsRat(hms) /\ \A i \in 1..3 : IsRat(C[i])
 
 \* parameters stay admissible whatever was attempted (rejected values leave no trace)
@@ -355,6 +388,25 @@ FriisClose ==
       /\ FSub(Det(k, 0), FriisForm(k)) = <<RZero, R(-20), RZero>>
       /\ LLe(LMul(R(20), LSub(Enc.x1[2], Enc.kf[1])), D(1, 100))
       /\ LLe(LMul(R(20), LSub(Enc.kf[2], Enc.x1[1])), D(1, 100))
+
+\* Shadowing: the range law holds for EVERY draw.  The draw is modelled as sigma z with z in Zs (any real z behaves
+\* like one of these for the purpose of the law: only the sign of det + sigma z matters).  The policy applies to the
+\* SHADOWED loss: negative -> raise / clamp to 0 dB, so a returned value is never negative (linear value in (0,1]).
+\* Dev.ShadowAfterPolicy: the policy is applied to the deterministic loss and the draw is added afterwards.
+Zs == -4..4
+ShVal(k, w, z) == FAdd(Det(k, w), FC(LMul(sigma, R(z))))
+ShOutcome(k, w, z) ==
+  IF Dev.ShadowAfterPolicy
+    THEN IF FSign(Det(k, w)) = -1 THEN (IF pol THEN [t |-> "val", f |-> FC(LMul(sigma, R(z)))] ELSE [t |-> "raise", f |-> FZ])
+         ELSE [t |-> "val", f |-> ShVal(k, w, z)]
+    ELSE IF FSign(ShVal(k, w, z)) = -1 THEN (IF pol THEN [t |-> "zero", f |-> FZ] ELSE [t |-> "raise", f |-> FZ])
+         ELSE [t |-> "val", f |-> ShVal(k, w, z)]
+ShadowRange ==
+  (Live /\ Exact /\ shadow) => \A w \in WS : \A k \in Ks : \A z \in Zs :
+      (FSign(ShVal(k, w, z)) # 2 /\ FSign(Det(k, w)) # 2) =>
+         /\ ShOutcome(k, w, z).t = "val" => FSign(ShOutcome(k, w, z).f) \in {0, 1}
+         /\ pol => ShOutcome(k, w, z).t # "raise"
+         /\ (sigma = RZero /\ Decided(k, w)) => ShOutcome(k, w, z) = Outcome(k, w)
 
 \* a call that raises leaves the object as it was
 RejectLaw == [][out' = "raise" => Params' = Params]_vars
